@@ -135,8 +135,11 @@ class Scheduler:
         time_horizon: float = 120.0,
         time_jump_cost: Optional[int] = None,
         time_jump_max: float = 0.3,
+        thread_start_faults: bool = False,
     ):
         self.prefix = list(prefix)
+        #: environment fault: the OS may refuse to start a payload thread (one deviation)
+        self.thread_start_faults = thread_start_faults
         self.free_switch_cost = free_switch_cost
         self.max_points = max_points
         self.spin_time = spin_time
@@ -682,6 +685,11 @@ class AThread(REAL_THREAD):
         if sched is None:
             return super().start()
         parent = sched.me()
+        if sched.thread_start_faults and parent is not None and getattr(
+                getattr(self, "_target", None), "__name__", "") == "_monitor_payload":
+            if sched.choice("thread-start-fault", ["start", "refuse"], [0, 1]) == 1:
+                sched.record("thread-start-refused")
+                raise RuntimeError("can't start new thread")
         label = getattr(self, "_cosched_label", None)
         lt = sched.new_thread(parent, label)
         lt.thread = self
